@@ -4,6 +4,7 @@ pub mod c07;
 pub mod c44;
 pub mod determinism;
 pub mod fees;
+pub mod locked;
 pub mod monitors;
 pub mod node;
 pub mod programs;
@@ -59,7 +60,7 @@ pub struct LedgerCheck {
     pub id: &'static str,
 }
 
-pub const LEDGER_IDS: &[&str] = &["C02", "C03", "C04", "C05", "C06", "C11"];
+pub const LEDGER_IDS: &[&str] = &["C02", "C03", "C04", "C05", "C06", "C11", "C51"];
 
 pub fn static_id(id: &str) -> Option<&'static str> {
     LEDGER_IDS.iter().find(|x| **x == id).copied()
@@ -418,6 +419,18 @@ impl LedgerCheck {
                 c02_failure_changes_only_fees(&ctx.node.db, c, &allowed)?;
                 ctx.stats.bump("c02.natural_or_injected_failure_checked");
             }
+            if self.id == "C51" {
+                let st = locked::c51_locked_unchanged(&ctx.node.db, c)?;
+                ctx.stats.add("c51.locked_substates_rewritten_identically", st.locked_substates_rewritten_identically);
+                ctx.stats.add("c51.newly_locked_substates", st.newly_locked);
+                ctx.stats.add("c51.fixed_owner_roles_touched", st.owner_roles_fixed_seen);
+                if class == 2 {
+                    let why = format!("{:?}", c.outcome);
+                    if why.contains("Locked") || why.contains("locked") {
+                        ctx.stats.bump("c51.update_of_locked_state_refused");
+                    }
+                }
+            }
             if self.id == "C06" && !system {
                 let fctx = self.fee_ctx(step, ctx);
                 fees::c06_check(&ctx.node.db, &receipt, &fctx)?;
@@ -495,6 +508,7 @@ impl World for LedgerCheck {
             "C04" => "Every scan_every commits and at run end: own full-store scan (supply == sum of vaults per resource, no negative balance, NF amount == |ids|, no id in two vaults) and the repository's ResourceDatabaseChecker + ResourceEventChecker + ResourceReconciler (replay of all events since genesis). evaluations = engine executions; distinct = distinct (state-updates digest, outcome class).",
             "C05" => "Every scan_every commits and at run end: the repository's KernelDatabaseChecker and SystemDatabaseChecker (with role-assignment, royalty and resource application checkers) over the whole store, plus an own ownership pass (every stored internal node owned exactly once, no global node owned, stored values reference only global nodes). evaluations = engine executions; distinct = distinct (state-updates digest, outcome class).",
             "C06" => "Most fees are locked on a dedicated payer account (it does nothing else, so its vault change is exactly the payment), with 1-2 locks mixing contingent and non-contingent, amounts below/around/above the need, tips over the whole Percentage(u16) and BasisPoints(u32) ranges, and in half the runs overridden costing parameters (unit prices with 18 significant decimals, USD and storage prices). For every commit: paid == execution+finalization+tip+storage+royalties == proposer+validator set+burn+royalties, cost == units x price, tip within truncation bounds, proposer/validator shares (tips 100% proposer; network fees 25/25/50) within 2 attos, rewards vault delta, burn event, dedicated payer vault delta == reported payment (refund in full), contingent-only vault untouched on failure, cost units within limits. Fee probes: total cost T learned with a generous lock, then locks of exactly T and T -/+ {1, 1e3, 1e9} attos are executed (no commit): each must be a consistent commit or a reject; a panic of the executor's fee sanity assertions is the violation. Oracle arithmetic in BigInt attos. evaluations = engine executions; distinct = distinct (state-updates digest, outcome class).",
+            "C51" => "Model-free history invariant: for every commit each updated substate is compared with its pre-state; a substate whose stored lock status is Locked (object fields, key-value entries incl. metadata entries and non-fungible tombstones) or an owner role whose updater is None must be rewritten byte-identically or not at all. The workload locks metadata keys and owner roles (resources are created with Fixed or Updatable owner roles) and then every party - the owner included - keeps issuing set / lock / set-owner / mint / burn calls against them, with injected faults. evaluations = engine executions; distinct = distinct (state-updates digest, outcome class).",
             "C11" => "Every execution runs under catch_unwind with a recording panic hook; a panic or a NativeRuntimeError::Trap is the violation. evaluations = engine executions; distinct = distinct (state-updates digest, outcome class).",
             _ => "",
         };
@@ -535,6 +549,7 @@ impl World for LedgerCheck {
         match self.id {
             "C02" => v.extend(["sweep.transactions", "sweep.commit_failure", "sweep.reject", "c02.natural_or_injected_failure_checked"]),
             "C04" => v.extend(["scan.c04_full_scans"]),
+            "C51" => v.extend(["c51.locked_substates_rewritten_identically", "c51.newly_locked_substates", "c51.update_of_locked_state_refused", "ok.LockMetadata", "ok.LockOwnerRole", "ok.SetOwnerRole"]),
             "C06" => v.extend(["c06.commits_checked", "c06.dedicated_payer_commits", "c06.tipped_commits", "probe.contingent_lock_on_failed_tx", "probe.fee_probes", "probe.reject_with_lock_below_cost", "probe.commit_with_lock_at_or_above_cost", "probe.commit_with_lock_below_reference_cost"]),
             "C05" => v.extend(["scan.c05_full_scans"]),
             _ => {}
@@ -558,7 +573,7 @@ impl World for LedgerCheck {
             validators: rng.range(0, 4) as u32,
             rounds: rng.range(0, 3) as u32,
             failures: rng.range(0, 2) as u32,
-            metadata: rng.range(0, 2) as u32,
+            metadata: if self.id == "C51" { rng.range(4, 8) as u32 } else { rng.range(0, 2) as u32 },
             restarts: rng.range(0, 1) as u32,
             allow_freezable: !matches!(self.id, "C04" | "C05" | "C02") || rng.chance(1, 2),
             payer_fees: self.id == "C06",
